@@ -35,9 +35,9 @@ from simkit import c12_multi as _multi  # noqa: E402
 from simkit import c12_misc as _misc  # noqa: E402
 
 PROPERTY = "C12"
-RUNS = {"quick": 4000, "thorough": 300_000}
+RUNS = {"quick": 8000, "thorough": 300_000}
 WALL = {"quick": 55, "thorough": 1500}
-BATCH = {"quick": 40, "thorough": 200}
+BATCH = {"quick": 100, "thorough": 500}
 SELFTEST_RUNS = 10
 SHRINK_BUDGET_S = {"quick": 20.0, "thorough": 90.0}
 RULE = (
